@@ -888,8 +888,14 @@ def explore(ctx: Ctx):
                 add_typing(name, {}, all_in_one)
             add_purity(name, [], 3 if thorough else 2, True if thorough else ("overlap" if name == "G1Standing" else False))
     # the default-argument rescaling wrappers over a box with an unbounded component
+    # (a stack whose construction the library rejects - rescale_box now asserts Gymnasium's precondition - does not
+    #  exist, so there is nothing to explore; it is explored only while it can be built)
     if not only or "CartPole" in only:
-        add_tree("CartPole", {}, S_RO_DEFAULT, 2, 2)
+        try:
+            build_env("CartPole", {}, S_RO_DEFAULT)
+            add_tree("CartPole", {}, S_RO_DEFAULT, 2, 2)
+        except AssertionError:
+            ctx.guard("default-rescale-over-unbounded-box-rejected-at-construction")
 
     for c in cases:
         if c["kind"] == "tree":
